@@ -253,6 +253,8 @@ func NewPathBinKey(key []byte) Path {
 func GetDescByPath(desc *thrift.TypeDescriptor, path ...Path) (ret *thrift.TypeDescriptor, err error) {
 	ret = desc
 	for _, p := range path {
+		// descend: each path item applies to the descriptor found by the previous one
+		desc = ret
 		switch desc.Type() {
 		case thrift.STRUCT:
 			switch p.Type() {
